@@ -23,6 +23,9 @@ def sum_of_squares(
     fill_value=None,
     dtype=None,
 ):
+    if dtype is not None and array.dtype.kind in "iub":
+        # square in the accumulation dtype, not at the (narrower) width of the input
+        array = array.astype(dtype, copy=False)
     return _get_aggregate(engine).aggregate(
         group_idx,
         array,
@@ -44,6 +47,9 @@ def nansum_of_squares(
     fill_value=None,
     dtype=None,
 ):
+    if dtype is not None and array.dtype.kind in "iub":
+        # square in the accumulation dtype, not at the (narrower) width of the input
+        array = array.astype(dtype, copy=False)
     return _get_aggregate(engine).aggregate(
         group_idx,
         array,
@@ -114,6 +120,10 @@ def _var_std_wrapper(group_idx, array, engine, *, axis=-1, **kwargs):
     # https://en.wikipedia.org/wiki/Algorithms_for_calculating_variance
     # Cast any unsigned types first
     dtype = np.result_type(array, np.int8(-1) * array[0])
+    if dtype.kind in "iub":
+        # the shifted values below must not wrap at the width of the input;
+        # np.var computes in floating point for integer input too.
+        dtype = np.dtype(np.float64)
     array = array.astype(dtype, copy=False)
     first = _get_aggregate(engine).aggregate(group_idx, array, func="nanfirst", axis=axis)
     array = array - first[..., group_idx]
